@@ -547,7 +547,11 @@ func (s Sink) Discharged() (bool, string) {
 		// 64 or more elements (the accumulator's Trees)
 		if s.BaseLen >= 64 {
 			for _, c := range s.Conds {
-				if c.Op == "!=" && c.R == "const:0" && strings.HasPrefix(c.L, "(") && strings.HasSuffix(c.L, " & (const:1 << "+op+"))") {
+				opName := op
+				if op == "*" || strings.HasPrefix(op, "*from") {
+					opName = "idx" // the loop index under its name in conditions
+				}
+				if c.Op == "!=" && c.R == "const:0" && strings.HasPrefix(c.L, "(") && (strings.HasSuffix(c.L, " & (const:1 << "+op+"))") || strings.HasSuffix(c.L, " & (const:1 << "+opName+"))")) {
 					return true, "index bounded by a passed bit test: " + c.String()
 				}
 			}
@@ -760,7 +764,8 @@ func isCoderPrimitive(fn *ssa.Function) bool {
 	if fn.Signature.Recv() != nil {
 		switch typeName(fn.Signature.Recv().Type()) {
 		case "types.Decoder", "types.Encoder", "types.Hasher":
-			return true
+			// the exported methods are the primitives; an unexported helper method (readPrefix) is implementation
+			return fn.Object() == nil || fn.Object().Exported()
 		}
 	}
 	if fn.Pkg != nil && strings.HasSuffix(fn.Pkg.Pkg.Path(), "/blake2b") {
